@@ -417,7 +417,10 @@ func (multiSource *MultiSource) findChanges(depDataset *server.Dataset, depSince
 	}
 
 	ids := make([]uint64, 0)
-	continuation, err := depDataset.ProcessChanges(depSince.AsIncrToken(), batchSize, multiSource.LatestOnly,
+	// Only the ids are used here. Every version has to trigger its entity (not just the newest one): with
+	// latestOnly a superseded version that removed a link would be passed over, and by the time the newest
+	// version is reached in a later page, the back-dated query no longer sees the link.
+	continuation, err := depDataset.ProcessChanges(depSince.AsIncrToken(), batchSize, false,
 		func(entity *server.Entity) {
 			ids = append(ids, entity.InternalID)
 		})
